@@ -347,6 +347,59 @@ def rule_R4_letchains(text, log):
         out = out[:mm.start()] + new + out[end:]
 
 
+def rule_R18_slice_iter_cursor(text, log):
+    """`let mut X = E.iter();` whose only later uses are `X.next()` / `X.last()`
+       ->  `let vx_X_seq = &E; let mut vx_X_pos: usize = 0;` and `vx_iter_next(vx_X_seq, &mut vx_X_pos)` / `vx_iter_last(..)`
+    (a slice iterator is a cursor into the slice; vx_iter_next / vx_iter_last are prelude functions with verified bodies)"""
+    out = text
+    rx = re.compile(r'let\s+mut\s+([A-Za-z_]\w*)\s*=\s*([A-Za-z_][\w.]*)\.iter\(\)\s*;')
+    while True:
+        mask = code_mask(out)
+        mm = next((m for m in rx.finditer(out) if mask[m.start()]), None)
+        if not mm:
+            return out
+        x, e = mm.group(1), mm.group(2)
+        rest = out[mm.end():]
+        rmask = mask[mm.end():]
+        uses = [m for m in re.finditer(r'(?<![\w.])%s\b' % re.escape(x), rest) if rmask[m.start()]]
+        pieces = []
+        last = 0
+        for u in uses:
+            tail = rest[u.end():]
+            m2 = re.match(r'\s*\.\s*(next|last)\s*\(\s*\)', tail)
+            if not m2:
+                raise Unsupported('R18: iterator `%s` is used other than by next()/last()' % x)
+            pieces.append(rest[last:u.start()])
+            pieces.append('vx_iter_%s(vx_%s_seq, &mut vx_%s_pos)' % (m2.group(1), x, x))
+            last = u.end() + m2.end()
+        pieces.append(rest[last:])
+        new_let = 'let vx_%s_seq = &%s; let mut vx_%s_pos: usize = 0;' % (x, e, x)
+        log.append(('R18', norm_ws(mm.group(0)), new_let))
+        out = out[:mm.start()] + new_let + ''.join(pieces)
+
+
+def rule_R19_enumerate(text, log):
+    """`for (I, V) in S.enumerate() { B }` over a sequence parameter S (no `continue` in B)
+       ->  `{ let mut I: usize = 0; while I < S.len() { let V = &S[I]; B I += 1; } }`"""
+    out = text
+    rx = re.compile(r'for\s*\(\s*([A-Za-z_]\w*)\s*,\s*([A-Za-z_]\w*)\s*\)\s*in\s+([A-Za-z_]\w*)\.enumerate\(\)\s*\{')
+    while True:
+        mask = code_mask(out)
+        mm = next((m for m in rx.finditer(out) if mask[m.start()]), None)
+        if not mm:
+            return out
+        ob = mm.end() - 1
+        cb = match_brace(out, mask, ob)
+        body = out[ob + 1:cb]
+        bmask = mask[ob + 1:cb]
+        if any(bmask[m.start()] for m in re.finditer(r'\bcontinue\b', body)):
+            raise Unsupported('R19: continue inside an enumerate() loop')
+        i_, v_, s_ = mm.group(1), mm.group(2), mm.group(3)
+        new = '{ let mut %s: usize = 0; while %s < %s.len() { let %s = &%s[%s];%s %s += 1; } }' % (i_, i_, s_, v_, s_, i_, body, i_)
+        log.append(('R19', norm_ws(mm.group(0)), 'let mut %s = 0; while %s < %s.len() { let %s = &%s[%s]; .. }' % (i_, i_, s_, v_, s_, i_)))
+        out = out[:mm.start()] + new + out[cb + 1:]
+
+
 def rule_R5_labelled_for(text, log):
     """'l: for _ in 0..n { B }  ->  { let mut vx_i: usize = 0; 'l: while vx_i < n { vx_i += 1; B } }
     only for the shape `'l: for _ in 0..<ident> {` (counter unused)"""
@@ -367,6 +420,8 @@ def rule_R5_labelled_for(text, log):
 # R6: redirects of std / foreign calls Verus has no spec for to same-named
 # prelude functions (whose trusted contract is the std documentation).
 R6_TABLE = [
+    # `Some(&Enum::Unit)` pattern on an Option<&Enum>: match ergonomics make `Some(Enum::Unit)` the same pattern
+    (r'\bSome\(&([A-Z]\w*(?:::[A-Z]\w*)+)\)(?=\s*(?:\||=>))', r'Some(\1)'),
     (r'&src\[([^\[\]]+?)\.\.\]', r'src.vx_from(\1)'),
     (r'\bu16::from_be_bytes\(src\[(\w+)\.\.\1 \+ 2\]\.try_into\(\)\.unwrap\(\)\)', r'vx_be16_at(src, \1)'),
     (r'&src\[(\w+) \+ 2\.\.\1 \+ 6\] == MQTT', r'vx_eq_mqtt_at(src, \1 + 2)'),
@@ -647,6 +702,10 @@ class Unit(object):
                 text = rule_R15_or_pattern_ref_mut(text, log)
             if 'R17' in self.rules:
                 text = rule_R17_hashmap_entry(text, log)
+            if 'R18' in self.rules:
+                text = rule_R18_slice_iter_cursor(text, log)
+            if 'R19' in self.rules:
+                text = rule_R19_enumerate(text, log)
         self.last_guard_renames = [r[3] for r in log if len(r) > 3]
         for r in log:
             self.rule_log.append({'rule': r[0], 'before': r[1], 'after': r[2], 'where': ctx})
